@@ -335,6 +335,8 @@ def _unshadow(c):
         return int
     if c is sym_float:
         return float
+    if getattr(c, '__name__', '') == 'sym_str':
+        return str
     return c
 
 
@@ -345,6 +347,9 @@ def sym_isinstance(obj, cls):
         cls = tuple(_unshadow(c) for c in cls)
     else:
         cls = _unshadow(cls)
+    if type(obj).__name__ == 'SymStr' and type(obj).__module__.endswith('symstr'):
+        classes = cls if isinstance(cls, tuple) else (cls,)
+        return any(c is str or c is object for c in classes) or isinstance(obj, cls)
     if isinstance(obj, Sym):
         classes = cls if isinstance(cls, tuple) else (cls,)
         for c in classes:
